@@ -330,6 +330,13 @@ def run(ctx):
     ctx.set("replay_discards_observed", sum(max(0, v) for r in recs for v in r["steps"][-1]["disc"].values()))
     ctx.set("drift_events", drift)
     ctx.set("stress_rounds", 0 if stress_failure else len(srecs))
+    # lock-order rounds (RTSPStream / OutDescCopy / add-remove against writers that change the parameter sets): their
+    # operations are judged by C40 ("every operation completes"); here they are only counted
+    lops = [o for r in srecs for o in r.get("ops", [])]
+    ctx.set("stress_lock_order_operations", len(lops))
+    hung = sorted({o["kind"] for o in lops if o["end"] == 0})
+    if hung:
+        ctx.note("stream stress: operations %s did not return within the watchdog (judged by C40, not by this property)" % hung)
     ctx.set("stress_reader_lives", lives)
     ctx.set("stress_callbacks", cbs)
     ctx.set("stress_writes", sum(len(r["writes"]) for r in srecs))
